@@ -5,6 +5,8 @@
     decoder's calculated checksum with an independent XXH64 of the model's hashed bytes. *)
 Require Import Zrs.lib.RsPrelude Zrs.gen.Generated Zrs.model.BlockDec Zrs.model.FrameDec.
 Require Import Zrs.proofs.C06_Drain Zrs.proofs.C05_Block Zrs.proofs.C06_Frame Zrs.proofs.C11_Reset Zrs.proofs.C08_Hash.
+Require Import Zrs.proofs.C02_Roundtrip Zrs.model.FrameEnc Zrs.model.Matcher Zrs.model.HufDec Zrs.model.LitEnc Zrs.model.SeqNorm Zrs.model.LitComp.
+Require Import Zrs.proofs.C02_Concrete Zrs.proofs.C02_O1 Zrs.proofs.C02_LitPart Zrs.proofs.C02_Closed Zrs.proofs.C08_Verify.
 Open Scope Z_scope.
 
 (** after initialisation nothing has been hashed *)
@@ -25,6 +27,38 @@ Theorem C08_hash_is_delivered : forall St (sstep : St -> Z -> sink_resp * St) op
   let '(l, d', st') := drain_run St sstep d st ops in fdec_hashed d' = fdec_hashed d ++ l.
 Proof. exact hash_is_delivered. Qed.
 
+(** a whole frame, from a decoder in any state: initialised on ANY byte string, decoded by one call, then drained by ANY
+    program (read / collect / collect_to_writer on any sink, in any mix): the hasher has received exactly what was
+    handed out, what was handed out plus what is still buffered is the content of the frame, the stored checksum is
+    untouched; once the buffer is empty the hashed bytes are the whole content of the frame *)
+Theorem C08_hashed_bytes_are_the_frame_content : forall St (sstep : St -> Z -> sink_resp * St) d frame d1 rest evs d2 rest' fin s2 ops st,
+  bytes_ok frame = true -> Forall dict_ok (fd_dicts d) ->
+  fdec_reset d frame = ROk (d1, rest, evs) ->
+  fdec_decode_blocks d1 rest SAll = ROk (d2, rest', fin) -> fd_state d2 = Some s2 ->
+  let '(l, d', st') := drain_run St sstep d2 st ops in
+  exists s', fd_state d' = Some s' /\ fr_checksum s' = fr_checksum s2 /\
+    l ++ db_all (st_buf s') = buf_content s2 /\ fdec_hashed d' = l /\
+    (db_all (st_buf s') = [] -> fdec_hashed d' = buf_content s2).
+Proof. exact hashed_is_frame_content. Qed.
+
+(** the frames of the compressor (level Fastest, hashing on; every input, fragmentation of the reads, block size, window
+    and reuse history of the closed C02 theorem; [h] is the 32-bit hash as four bytes): decoded and drained by any
+    program, the hasher has received exactly the delivered bytes, and once the buffer is empty these are the input of
+    the compressor and the checksum stored in the frame is [h] of exactly the hashed bytes: calculated = stored *)
+Theorem C08_compressor_frames_verify : forall St (sstep : St -> Z -> sink_resp * St) slice wsize h cs data script frame cs' r',
+  Cinit2 _ cs -> 1 <= Z.of_nat slice <= 131072 -> 1 <= wsize <= 2 ^ 27 ->
+  (forall x, length (h x) = 4%nat) -> bytes_ok frame = true ->
+  compress_frame (cst2 (option codes_t)) (cblock2 norm_model _ litenc_model) (cskip2 _) (cfallback2 _ None) (creset2 _ None) LFastest slice wsize (Some h) cs
+    {| rd_data := data; rd_script := script |} = ROk (frame, cs', r') ->
+  exists d1 rest evs d2,
+    fdec_reset fdec_new frame = ROk (d1, rest, evs) /\ fdec_decode_blocks d1 rest SAll = ROk (d2, [], true) /\
+    forall ops st, let '(l, d', st') := drain_run St sstep d2 st ops in
+      exists s', fd_state d' = Some s' /\ fdec_hashed d' = l /\ l ++ db_all (st_buf s') = data /\
+        (db_all (st_buf s') = [] -> fdec_hashed d' = data /\ fr_checksum s' = Some (le_val (h (fdec_hashed d')))).
+Proof. exact compressor_frame_checksum_verifies. Qed.
+
 Print Assumptions C08_reset_hash_empty.
+Print Assumptions C08_hashed_bytes_are_the_frame_content.
+Print Assumptions C08_compressor_frames_verify.
 Print Assumptions C08_decode_does_not_hash.
 Print Assumptions C08_hash_is_delivered.
